@@ -114,6 +114,33 @@ _STR_METHODS = {"startswith", "endswith", "count", "find", "rfind", "split", "rs
 _MAX_ITEMS = 4096
 
 
+def _m_normalize(*a):
+    """unicodedata.normalize(form, s): the checker's interpreter carries the same tables as the one running the server"""
+    import unicodedata
+    if len(a) != 2 or not all(isinstance(x, str) for x in a):
+        raise Unk("normalize arguments")
+    if a[0] not in ("NFC", "NFD", "NFKC", "NFKD"):
+        raise CRaise("ValueError")
+    return unicodedata.normalize(a[0], a[1])
+
+
+def _m_unquote(plus):
+    def model(*a):
+        import urllib.parse
+        if not 1 <= len(a) <= 3 or not all(isinstance(x, str) for x in a):
+            raise Unk("unquote arguments")
+        try:
+            return (urllib.parse.unquote_plus if plus else urllib.parse.unquote)(*a)
+        except (LookupError, UnicodeError):
+            raise Unk("unquote codec")
+    return model
+
+
+# Library functions str -> str whose result is a function of the arguments alone and which the checker evaluates itself
+# on constant arguments (qualified names; import aliases are resolved by SX.apply before the lookup).
+STR_MODELS = {"unicodedata.normalize": _m_normalize, "urllib.parse.unquote": _m_unquote(False), "urllib.parse.unquote_plus": _m_unquote(True)}
+
+
 def _is_plain(v):
     return v is None or isinstance(v, (str, bytes, int, float, bool, tuple, list, set, frozenset))
 
@@ -381,10 +408,20 @@ def _ccall(e, cenv, depth):
         if isinstance(v, str):
             return v.startswith("/")
         raise Unk("isabs")
+    if fn in STR_MODELS:
+        return STR_MODELS[fn](*[ev(a) for a in args])
     if isinstance(e.func, ast.Attribute):
         recv = ev(e.func.value)
         name = e.func.attr
         vals = [ev(a) for a in args]
+        if isinstance(recv, (str, bytes)) and name == ("encode" if isinstance(recv, str) else "decode") and all(isinstance(v, str) for v in vals):
+            # exact model (the checker's own interpreter implements the codecs): "..\u00e9".encode("ascii", "ignore") == b".."
+            try:
+                return getattr(recv, name)(*vals)
+            except UnicodeError as x:
+                raise CRaise(type(x).__name__)
+            except (LookupError, TypeError):
+                raise Unk("codec")
         if isinstance(recv, str):
             if name == "join" and len(vals) == 1:
                 items = _iter(vals[0])
@@ -2440,6 +2477,14 @@ def _sx_sym_call(self, e, st, fr, awaited=False):
 def _sx_apply(self, e, fexpr, args, kws, st, fr, awaited):
     """a call that is not stepped into: pure (kept as structure, folded) or opaque (fresh value)"""
     fn = chain(fexpr)
+    if fn is not None and fn.split(".")[0] not in st.env and fn.split(".")[0] not in fr.locals:
+        # a modelled library function under an import alias (`from unicodedata import normalize`, `import unicodedata as u`)
+        head, _, rest = fn.partition(".")
+        q = fr.fi.module.imports.get(head)
+        qn = (q + ("." + rest if rest else "")) if q else fn
+        if qn in STR_MODELS and qn != fn:
+            fexpr = ast.parse(qn, mode="eval").body
+            fn = qn
     node = ast.Call(func=fexpr, args=list(args), keywords=[ast.keyword(arg=k, value=v) for k, v in kws])
     # mutation of a local collection through one of its methods: its value is no longer known
     if isinstance(e.func, ast.Attribute) and isinstance(e.func.value, ast.Name) and e.func.attr in MUTATORS and e.func.value.id in st.env:
@@ -2478,7 +2523,7 @@ def _sx_apply(self, e, fexpr, args, kws, st, fr, awaited):
     pure = False
     if isinstance(fexpr, ast.Name) and fexpr.id in PURE_FUNCS and fexpr.id not in st.env:
         pure = True
-    elif fn in PURE_CHAINS:
+    elif fn in PURE_CHAINS or fn in STR_MODELS:
         pure = True
     elif isinstance(fexpr, ast.Attribute) and fexpr.attr in PURE_METHODS:
         pure = True
@@ -3177,3 +3222,120 @@ def marker_node(e):
 
 
 SX.peek = _sx_peek
+
+
+# ---------------------------------------------------------------------------
+# lexical value of a returned path (C19.g)
+
+LEX_ROOT = "/srv/coap-root"  # stands for self.root: absolute, ASCII, no component a text transformation could alter
+_PATH_CTORS = {"Path", "pathlib.Path", "PurePath", "pathlib.PurePath", "PurePosixPath", "pathlib.PurePosixPath", "PosixPath", "pathlib.PosixPath"}
+_JOIN_FUNCS = {"os.path.join", "posixpath.join"}
+_NORM_FUNCS = {"os.path.normpath", "posixpath.normpath", "os.path.abspath", "posixpath.abspath"}
+
+
+def lex_value(e, is_root, cenv=None):
+    """Value of a symbolic expression all of whose leaves are constants or the root directory, computed by the checker
+    (pure path algebra of PurePosixPath, the string models of `ceval`): a str / tuple / ... or a PurePosixPath.
+    `is_root(expr)` tells whether an attribute chain denotes the root; `cenv` holds the scenario's constants.  Raises Unk / CRaise like `ceval`.
+    Nothing here touches the file system: resolve()/absolute()/realpath of a path under the (absolute) root are taken
+    lexically, which is what they return when no symbolic link is involved."""
+    import posixpath
+    from pathlib import PurePosixPath as PP
+    ev = lambda x: lex_value(x, is_root, cenv)
+    if isinstance(e, (ast.Attribute, ast.Name)) and is_root(e):
+        return PP(LEX_ROOT)
+    p = opaque_parts(e)
+    if p is not None:
+        e = ast.Call(func=p[0], args=p[1], keywords=p[2])
+    if isinstance(e, ast.BinOp) and isinstance(e.op, ast.Div):
+        l, r = ev(e.left), ev(e.right)
+        if (isinstance(l, PP) and isinstance(r, (PP, str))) or (isinstance(r, PP) and isinstance(l, str)):
+            return PP(l, r)
+        raise Unk("division")
+
+    def flat(args):
+        out = []
+        for a in args:
+            if isinstance(a, ast.Starred):
+                out.extend(_iter(ev(a.value)))
+            else:
+                out.append(ev(a))
+        return out
+
+    if isinstance(e, ast.Call) and not e.keywords:
+        fn = chain(e.func)
+        if fn in _PATH_CTORS:
+            vals = flat(e.args)
+            if all(isinstance(v, (PP, str)) for v in vals):
+                return PP(*vals)
+            raise Unk("path constructor arguments")
+        if fn in _JOIN_FUNCS or fn in _NORM_FUNCS or fn in ("str", "os.fspath", "os.path.realpath"):
+            vals = flat(e.args)
+            if vals and all(isinstance(v, (PP, str)) for v in vals):
+                txt = [str(v) for v in vals]
+                if fn in _JOIN_FUNCS:
+                    return posixpath.join(*txt)
+                if len(txt) == 1 and fn in _NORM_FUNCS | {"os.path.realpath"}:
+                    if not txt[0].startswith("/"):
+                        raise Unk("relative to the working directory")
+                    return posixpath.normpath(txt[0])
+                if len(txt) == 1 and fn in ("str", "os.fspath"):
+                    return txt[0]
+        if fn in STR_MODELS:
+            return STR_MODELS[fn](*flat(e.args))
+        if isinstance(e.func, ast.Attribute):
+            recv = ev(e.func.value)
+            name = e.func.attr
+            if isinstance(recv, PP):
+                vals = flat(e.args)
+                if name == "joinpath" and all(isinstance(v, (PP, str)) for v in vals):
+                    return PP(recv, *vals)
+                if name in ("resolve", "absolute") and len(vals) <= 1 and recv.is_absolute():
+                    return PP(posixpath.normpath(str(recv))) if name == "resolve" else recv
+                if name == "expanduser" and not vals and not str(recv).startswith("~"):
+                    return recv
+                if name in ("as_posix", "__str__", "__fspath__") and not vals:
+                    return str(recv)
+                if name in ("with_name", "with_suffix", "with_stem") and len(vals) == 1 and isinstance(vals[0], str):
+                    try:
+                        return getattr(recv, name)(vals[0])
+                    except ValueError:
+                        raise CRaise("ValueError")
+                raise Unk("path method " + name)
+            # a method of a plain value: evaluate on the values
+            vals = flat(e.args)
+            if _is_plain(recv) and all(_is_plain(v) for v in vals):
+                return ceval(ast.Call(func=ast.Attribute(value=value_to_ast(recv), attr=name, ctx=ast.Load()), args=[value_to_ast(v) for v in vals],
+                                      keywords=[]))
+            raise Unk("method " + name)
+        vals = flat(e.args)
+        if all(_is_plain(v) for v in vals):
+            return ceval(ast.Call(func=e.func, args=[value_to_ast(v) for v in vals], keywords=[]))
+        raise Unk("call " + (fn or "?"))
+    if isinstance(e, ast.Attribute):
+        recv = ev(e.value)
+        if isinstance(recv, PP):
+            if e.attr == "parent":
+                return recv.parent
+            if e.attr in ("name", "stem", "suffix"):
+                return getattr(recv, e.attr)
+        raise Unk("attribute " + e.attr)
+    if isinstance(e, ast.JoinedStr):
+        out = []
+        for part in e.values:
+            if isinstance(part, ast.Constant):
+                out.append(str(part.value))
+            elif isinstance(part, ast.FormattedValue) and part.conversion in (-1, 115) and part.format_spec is None:
+                v = ev(part.value)
+                if not isinstance(v, (PP, str)):
+                    raise Unk("formatted value")
+                out.append(str(v))
+            else:
+                raise Unk("format")
+        return "".join(out)
+    if isinstance(e, ast.BinOp) and isinstance(e.op, (ast.Add, ast.Mod)):
+        l, r = ev(e.left), ev(e.right)
+        if isinstance(e.op, ast.Add) and isinstance(l, str) and isinstance(r, str):
+            return l + r
+        raise Unk("string arithmetic")
+    return ceval(e, cenv)
